@@ -994,6 +994,9 @@ class Address(ABC):
 
         # get data, network_prefix and checksum
         data_checksum = b58decode(address.encode("utf-8"))
+        # version byte + 20-byte hash + 4-byte checksum
+        if len(data_checksum) != 25:
+            return False
         data = data_checksum[:-4]
         network_prefix = data_checksum[:1]
         checksum = data_checksum[-4:]
